@@ -59,6 +59,11 @@ func pub(topic string, payload string, qos int) body {
 	return body{kind: 'p', msg: packet.Message{Topic: topic, Payload: []byte(payload), QOS: packet.QOS(qos)}}
 }
 
+type peerPub struct {
+	conn    int
+	payload string
+}
+
 type scn struct {
 	id      int
 	name    string
@@ -74,7 +79,7 @@ type scn struct {
 	cond     *sync.Cond
 	lines    []string
 	peers    []string
-	peerPubs []string
+	peerPubs []peerPub
 	counts   map[string]int
 	gates    map[string]chan struct{}
 	attempt  int
@@ -268,7 +273,7 @@ func (s *scn) peerSaw(conn int, pkt packet.Generic) {
 		}
 		l = fmt.Sprintf("%d %d %s", conn, v.ID, body{kind: 'p', msg: v.Message}.text())
 		s.mu.Lock()
-		s.peerPubs = append(s.peerPubs, string(v.Message.Payload))
+		s.peerPubs = append(s.peerPubs, peerPub{conn, string(v.Message.Payload)})
 		s.mu.Unlock()
 	default:
 		return
